@@ -36,12 +36,6 @@ Definition w_recursion : program :=
                  SAssign 2%nat (ELit [99])] None]
          [SCall None 0%nat [AVal (EVar 0%nat); ARef 4%nat; AVal (EInt 1)]; SPrint (EVar 0%nat); SPrint (EVar 4%nat)].
 
-(* f(Referenz a, Referenz b): b := a.     main: f(t, t); print t      (every level) *)
-Definition w_self_assign : program :=
-  mkProg [(0%nat, ELit [97; 98])]
-         [mkFun [mkParam 1%nat true; mkParam 2%nat true] [SAssign 2%nat (EVar 1%nat)] None]
-         [SCall None 0%nat [ARef 0%nat; ARef 0%nat]; SPrint (EVar 0%nat)].
-
 Lemma w_same_var_runs :
   run_copy 50 w_same_var = Ok [OSeq [97; 98]; OSeq [97; 98; 88]] /\ run_elide 50 w_same_var = Er EUaf.
 Proof. split; vm_compute; reflexivity. Qed.
@@ -60,10 +54,6 @@ Lemma w_recursion_runs :
   run_copy 50 w_recursion = Ok [OSeq [97; 98]; OSeq [99]] /\ run_elide 50 w_recursion = Er EUaf.
 Proof. split; [|split]; vm_compute; reflexivity. Qed.
 
-Lemma w_self_assign_runs :
-  run_copy 50 w_self_assign = Er ESelfAssign /\ run_elide 50 w_self_assign = Er ESelfAssign.
-Proof. split; vm_compute; reflexivity. Qed.
-
 (* elision_sound : forall fuel p, run_elide fuel p = run_copy fuel p   is false *)
 Lemma elision_sound_refuted :
   exists fuel p, run_elide fuel p <> run_copy fuel p.
@@ -79,8 +69,3 @@ Proof.
   destruct w_global_runs as [-> ->]. destruct w_recursion_runs as (_ & -> & ->).
   repeat split; discriminate.
 Qed.
-
-(* "copy mode never copies from freed storage" is false as well: assignment frees the target first *)
-Lemma copy_self_assign_refuted :
-  exists fuel p, run_copy fuel p = Er ESelfAssign.
-Proof. exists 50%nat, w_self_assign. apply w_self_assign_runs. Qed.
